@@ -249,7 +249,7 @@ func (tm *TypeMap) InRange(x *Term, t types.Type, depth int) *Term {
 			return p.True()
 		}
 		return p.And(p.Ge(p.Acc(x, 0), p.Int(0)), p.Ge(p.Acc(x, 1), p.Int(0)), p.Ge(p.Acc(x, 2), p.Int(0)),
-			p.Le(p.Acc(x, 2), p.Acc(x, 3)), p.Le(p.Acc(x, 3), p.Int(1<<40)),
+			p.Le(p.Acc(x, 2), p.Acc(x, 3)), p.Le(p.Acc(x, 3), p.Int(1<<40)), p.Le(p.Acc(x, 2), p.Int(1<<40)),
 			p.Implies(p.Eq(p.Acc(x, 0), p.Int(0)), p.Eq(p.Acc(x, 3), p.Int(0))))
 	case *types.Struct:
 		if depth > 3 {
